@@ -13,6 +13,7 @@
   `snapOk` state that on what the harness can see while the pipeline stands still.
 -/
 import ControlModel.Model.Writer
+import ControlModel.Model.Registry
 
 namespace Writer
 
@@ -134,5 +135,35 @@ def handoverOk (cap : Nat) (o : Obs) : Bool := o.snaps.all (snapOk cap)
     capacity of the hand-over channel of the writer that was run. -/
 def Spec (bm cap : Nat) (prods : List Producer) (o : Obs) : Bool :=
   safeOk bm prods o && flushOk o && closeOk o && handoverOk cap o
+
+/-! ## the registry of the core: the per-writer statements are statements about a TOPIC
+
+  What the harness sees of one topic in one epoch of the registry (from the first look-up of the
+  topic to the shutdown, core/the/eventwriter.go): which writer every caller was handed at its
+  first and at its second look-up (writers numbered by first appearance), which of the writers
+  handed out are closed once ClearEventWriters has returned, how many WriteEvent calls of every
+  caller have returned, and what the broker had been handed for the topic by then. -/
+structure TopicObs where
+  first : List Nat
+  again : List Nat
+  closed : List Bool
+  accepted : List Nat
+  delivered : List Ev
+  deriving Repr, DecidableEq
+
+/-- Every caller of the topic was handed the same writer, at every look-up. -/
+def oneWriter (o : TopicObs) : Bool := Registry.allSame (o.first ++ o.again)
+
+/-- Every writer that was handed out has been closed by the shutdown. -/
+def allClosed (o : TopicObs) : Bool := o.closed.all id
+
+/-- The property for one topic and one epoch: one pipeline, closed by the shutdown, and what the
+    broker has got when the shutdown has completed is every accepted event, once, each caller's
+    events in the order it published them. -/
+def topicOk (o : TopicObs) : Bool :=
+  oneWriter o && allClosed o && orderedOnce o.delivered && allDelivered o.accepted o.delivered
+
+/-- Spec for an observed run of the registry stream: rounds (epochs) of topics. -/
+def SpecReg (rounds : List (List TopicObs)) : Bool := rounds.all fun r => r.all topicOk
 
 end Writer
